@@ -254,7 +254,7 @@ func c03Run(r *sim.Run) {
 		units, err := work.ParseUnits(x)
 		if err == nil {
 			deep := t.Chance(400) || name == "built-init" || name == "protected-segments-without-init"
-			ops := work.Transport(r, &units, 1+t.Draw(2), deep, []string{"splice", "dup", "swap", "move", "drop", "largesize"})
+			ops := work.Transport(r, &units, 1+t.Draw(2), deep, []string{"splice", "dup", "swap", "move", "drop", "largesize", "version"})
 			x = work.Serialize(units, true)
 			r.Logf("unit transport on %s: %v -> %d bytes", name, ops, len(x))
 			name += "+transport"
